@@ -133,9 +133,15 @@ def sums_leg(work, hook_files, coverage, rejected, tier):
 
 
 def run(tier, seed, t0):
+    covr, rejr = _diagapi.run("C02", "J02", tier, seed, t0, cls="rigid", invariants=["InvWellTyped", "InvLaws"])
     cov, rej = _diagapi.run("C02", "J02", tier, seed, t0, invariants=["InvWellTyped", "InvLaws", "InvSums"],
                             extra_hook=sums_leg, keep_states=True)
-    return core.finish("C02", tier, seed, LEVEL, cov, rej, t0, ASSUME)
+    cov["rigid_machine"] = {k: covr[k] for k in ("states", "transitions", "traces_validated_against_impl", "model", "replay",
+                                                 "verdicts_by_clause", "canary")}
+    cov["states"] += covr["states"]
+    cov["transitions"] += covr["transitions"]
+    cov["traces_validated_against_impl"] += covr["traces_validated_against_impl"]
+    return core.finish("C02", tier, seed, LEVEL, cov, rej + rejr, t0, ASSUME)
 
 
 def replay(path):
